@@ -55,6 +55,22 @@ def AzState.call (syms : SymbolTable) (blocks : List Block) (az : AuthorizerData
       | .ok fs => (s', .answer fs)
       | .error e => (s', .exprError e)
 
+/-- `Authorizer::from_snapshot (a.snapshot ())`: what a snapshot stores of the evaluation is the
+    world's facts, the iteration counter and the execution time of a completed run, so the
+    restored authorizer is in the same accounting state -/
+def AzState.restore (s : AzState) : AzState := s
+
+/-- a step of a history: an API call, or the authorizer replaced by what its snapshot restores -/
+inductive AzOp where
+  | call (c : AzCall)
+  | restore
+  deriving Repr, Inhabited
+
+def AzState.op (syms : SymbolTable) (blocks : List Block) (az : AuthorizerData) (lim : Limits)
+    (s : AzState) : AzOp → AzState × Option CallOut
+  | .call c => let r := s.call syms blocks az lim c; (r.1, some r.2)
+  | .restore => (s.restore, none)
+
 def AzState.init (blocks : List Block) (az : AuthorizerData) : AzState :=
   ⟨factMerge [] (worldFacts blocks az), 0, false⟩
 
@@ -66,5 +82,14 @@ def AzState.calls (syms : SymbolTable) (blocks : List Block) (az : AuthorizerDat
     let (s1, o) := s.call syms blocks az lim c
     let (s2, os) := AzState.calls syms blocks az lim s1 cs
     (s2, o :: os)
+
+/-- a history of calls and snapshot round trips on one authorizer -/
+def AzState.ops (syms : SymbolTable) (blocks : List Block) (az : AuthorizerData) (lim : Limits) :
+    AzState → List AzOp → AzState × List (Option CallOut)
+  | s, [] => (s, [])
+  | s, o :: os =>
+    let r1 := s.op syms blocks az lim o
+    let r2 := AzState.ops syms blocks az lim r1.1 os
+    (r2.1, r1.2 :: r2.2)
 
 end Biscuit
